@@ -104,6 +104,11 @@ class Prop:
                     k = rng.randrange(len(b) + 1)
                     m = rng.choice(toks)
                     add('ST', b[:k] + m + b[k:], 'user-type-mutated-' + conv)
+        # the text is a type referred to through a rule, an alternative, a key shortcut, an item, additionalProperties, allOf:
+        # empty bodies, bodies of every kind, broken ones
+        for text in ['', ' ', '\n', '// note only', '# c', '/* x */', '1', '"s"', 'true', 'null', '{}', '[]', '{', '[1,', '5 // {min: 9}', '@a', '@b', '"s" // {regex: "["}']:
+            for k in range(7):
+                add('SP%d' % k, text.encode(), 'user-type-in-position')
         # the rejected text is a type another type inherits from: the position of an inherited member refers to the text it was written in
         for text in ['{\n  "k": 5 // {min: 9}\n}', '{\n\n\n  "pad": "' + 'x' * 60 + '",\n  "k": 5 // {min: 9}\n}', '{\n  "a": 1,\n  "s": "abc" // {maxLength: 1}\n}',
                      '{\n  "n": [\n    1.5 // {type: "integer"}\n  ]\n}', '{\n  "m": @missing\n}', '{\n  "deep": {\n    "k": true // {type: "string"}\n  }\n}']:
